@@ -11,7 +11,7 @@ C14_COLOURS = "[style.colors]\nprimary = \"#000000\"\nerror = \"#FFfe01\"\nhighl
 PROPS = {
     "C01": {
         "timeouts_not_mine": True,
-        "lean_modules": ["Props.Clean", "Props.Cells", "Props.Facts19", "Props.C01p"],
+        "lean_modules": ["Props.Clean", "Props.Cells", "Props.Facts19", "Props.C01p", "Props.Gen15h", "Props.GenT15h"],
         "groups": [{"name": "render", "quick": 2500, "thorough": 60000}, {"name": "C01misc", "quick": 2000, "thorough": 60000},
                    {"name": "C14", "quick": 1500, "thorough": 40000}, {"name": "C06", "quick": 1200, "thorough": 30000, "workers": 12},
                    {"name": "present", "quick": 800, "thorough": 20000, "workers": 12}],
@@ -26,7 +26,7 @@ PROPS = {
     },
     "C12": {
         "timeouts_not_mine": True,
-        "lean_modules": ["Props.C20b", "Props.Gen20", "Props.GenT20", "Props.Gen12", "Props.GenT12", "Props.Gen15", "Props.GenT15"],
+        "lean_modules": ["Props.C20b", "Props.Gen20", "Props.GenT20", "Props.Gen12", "Props.GenT12", "Props.Gen15", "Props.GenT15", "Props.Gen15h", "Props.GenT15h"],
         # which link a typed number opens (and what a failing or slow hook leaves of the number being typed) is what the interface model says
         "correspondence_is_failure": {"ui": True},
         "groups": [{"name": "render", "quick": 3000, "thorough": 80000}, {"name": "mediaL", "quick": 600, "thorough": 20000, "workers": 12},
@@ -46,7 +46,7 @@ PROPS = {
     },
     "C14": {
         "timeouts_not_mine": True,
-        "lean_modules": ["Props.Cells", "Props.Clean", "Props.C01p", "Props.Gen14", "Props.Gen13", "Props.GenT13"],
+        "lean_modules": ["Props.Cells", "Props.Clean", "Props.C01p", "Props.Gen14", "Props.Gen13", "Props.GenT13", "Props.Gen15h", "Props.GenT15h"],
         "groups": [{"name": "C14", "quick": 3000, "thorough": 80000}, {"name": "render", "quick": 1200, "thorough": 30000},
                    # the same under configured colours (what style.Color/Red/Code/Highlight read is the configuration, not a constant)
                    {"name": "C14", "quick": 1500, "thorough": 40000, "workers": 6, "config": C14_COLOURS},
@@ -76,6 +76,7 @@ PROPS = {
         "shrink_budget": 3,
     },
     "C06": {
+        "lean_modules": ["Props.Gen15h", "Props.GenT15h"],
         "groups": [{"name": "C06", "quick": 1500, "thorough": 40000, "workers": 12}, {"name": "renderdeep", "quick": 192, "thorough": 8000, "workers": 12},
                    {"name": "render", "quick": 800, "thorough": 20000}, {"name": "presentP", "quick": 800, "thorough": 20000, "workers": 12}],
         "rule": "JSON objects with the ActivityStreams keys filled with right- and wrong-typed values (types from all kinds incl. Tombstone/bogus, markup bodies in the four media types incl. 10..70 nested blockquotes, huge/negative/fractional numbers, malformed URLs and timestamps, embedded parents up to depth 3, collections with bogus entries, dead references to a closed port), built as post/actor/activity/any and then every Tangible method called at widths -50..300 and link numbers 0, +-1, 2^31, +-2^63; deep nesting of every block/inline tag to depth 5..65 at widths -1..80; "
@@ -317,7 +318,7 @@ PROPS = {
     },
     "C15": {
         "timeouts_not_mine": True,
-        "lean_modules": ["Props.C13s", "Props.Gen15", "Props.GenT15"],
+        "lean_modules": ["Props.C13s", "Props.Gen15", "Props.GenT15", "Props.Gen15h", "Props.GenT15h"],
         "groups": [{"name": "render", "quick": 2500, "thorough": 60000},
                    # documents rendered from several goroutines at once
                    {"name": "renderpar", "quick": 40, "thorough": 1500, "workers": 4},
